@@ -165,6 +165,60 @@ pub fn client_scenario(r: &mut Rng, rounds: usize) -> (usize, bool, bool) {
     (delivered, panicked, alive)
 }
 
+/// well-formed replies that come late, each after its own delay (slower, then faster than before, around the 500 ms mark
+/// from which replies count for the timeout estimate): the node reads them and carries on
+pub fn late_replies_scenario(r: &mut Rng, delays: &[u64]) -> (usize, bool, bool) {
+    let mut s = Scn::new(r, 2, false, Default::default());
+    let mut delivered = 0usize;
+    for d in delays {
+        let mut t = [0u8; 20];
+        for x in t.iter_mut() {
+            *x = r.byte();
+        }
+        let (tx, _rx) = flume::unbounded();
+        s.node.actor.verif_get(crate::c20::request_of(0, dht::Id::from(t)), ResponseSender::ClosestNodes(tx));
+        let mut withheld: Vec<(usize, std::net::SocketAddrV4, u32, MessageType)> = Vec::new();
+        for _ in 0..3 {
+            if tick_caught(&mut s, &mut |s, inc| {
+                if let Some(mt) = honest_reply(&s.peers[inc.peer], inc, &[]) {
+                    withheld.push((inc.peer, inc.from, inc.msg.transaction_id, mt));
+                }
+                Reply::Silent
+            }) {
+                return (delivered, true, false);
+            }
+        }
+        s.advance(*d);
+        for (p, from, tid, mt) in withheld {
+            s.peers[p].send(from, tid, mt, false, None);
+            delivered += 1;
+            if tick_caught(&mut s, &mut |s, inc| s.honest(inc)) {
+                return (delivered, true, false);
+            }
+        }
+        s.advance(3000);
+        for _ in 0..4 {
+            if tick_caught(&mut s, &mut |s, inc| s.honest(inc)) {
+                return (delivered, true, false);
+            }
+        }
+    }
+    // liveness: a fresh lookup is answered and ends
+    let (tx, rx) = flume::unbounded();
+    s.node.actor.verif_get(crate::c20::request_of(0, dht::Id::from([7u8; 20])), ResponseSender::ClosestNodes(tx));
+    let mut alive = false;
+    for _ in 0..40 {
+        if tick_caught(&mut s, &mut |s, inc| s.honest(inc)) {
+            return (delivered, true, false);
+        }
+        if rx.try_recv().is_ok() {
+            alive = true;
+            break;
+        }
+    }
+    (delivered, false, alive)
+}
+
 /// a put whose store requests are answered with error messages in a given pattern of codes (one per storing peer): the
 /// tally of errors is kept sorted by count in the event loop. Afterwards the put has its outcome, and the node works.
 pub fn error_tally_scenario(r: &mut Rng, kind: u8, codes: &[i32]) -> (usize, bool, bool) {
@@ -325,6 +379,10 @@ pub fn generate(r: &mut Rng, scale: usize) -> Vec<(String, String)> {
             let (n, p, a) = error_tally_scenario(r, kind, pat);
             out.push(("node_error_tally".to_string(), format!("KNode {} {} {} {}", 300 + 2 * i + kind as usize, n, crate::coqfmt::boolean(p), crate::coqfmt::boolean(a))));
         }
+    }
+    for (i, delays) in [vec![1500u64, 530, 800, 501, 3000, 600], vec![499, 500, 2500, 2400, 700, 10_000, 520], vec![600, 600, 600, 550]].iter().enumerate() {
+        let (n, p, a) = late_replies_scenario(r, delays);
+        out.push(("node_late_replies".to_string(), format!("KNode {} {} {} {}", 400 + i, n, crate::coqfmt::boolean(p), crate::coqfmt::boolean(a))));
     }
     for i in 0..(3 * scale.max(1)) {
         let (n, p, a) = sybil_scenario(r, 6);
